@@ -838,6 +838,8 @@ func TestC05(t *testing.T) {
 	}
 	thorough := ev.Thorough()
 	c05SendFails(t, c)
+	// one Request value sent several times, its message replaced in between (incl. by the zero message)
+	requestReuse(t, c, "TestC05", []Comp{CompSendGzip, CompSendMin, CompDefault})
 	idx := 0
 	for _, k := range c05OutCases(thorough) {
 		idx++
